@@ -491,6 +491,26 @@ GROUPS = {
              "    | cons e2 rest2 => dispexit_eval"),
         ],
     },
+    "cancel": {
+        "import": "Haiway.Bridge.Cancel", "open": "Haiway.MiniPy Haiway.Bridge.Cancel",
+        "defs": {
+            name: Target("src/haiway/context/access.py", "ctx", meth, [], {}, {},
+                         ext_functions={"current_task": (280, [])},
+                         method_externals={"cancelling": (281, ["$recv"]), "cancel": (282, ["$recv"]),
+                                           "cancelled": (283, ["$recv"]), "uncancel": (284, ["$recv"])})
+            for name, meth in (("gCheckCancellation", "check_cancellation"), ("gCancel", "cancel"))
+        },
+        "obligations": [
+            ("check_reports", ["gCheckCancellation"], "CheckReports gCheckCancellation",
+             "intro w loc fld hl\n  unfold gCheckCancellation\n"
+             "  cases ht : w.task with\n  | none => cancel_eval\n"
+             "  | some t =>\n    by_cases hc : w.cancelling > 0\n"
+             "    · have := pos_cast hc; cancel_eval\n"
+             "    · have h0 : w.cancelling = 0 := by omega\n      cancel_eval"),
+            ("cancel_asks", ["gCancel"], "CancelAsks gCancel",
+             "intro w loc fld hl\n  unfold gCancel\n  cases ht : w.task <;> cancel_eval"),
+        ],
+    },
     "completion": {
         "import": "Haiway.Bridge.Completion", "open": "Haiway.MiniPy Haiway.Bridge.Completion",
         "defs": {
